@@ -67,12 +67,14 @@ class CallGraph:
                 if tg:
                     self.resolved += 1
                     self.edges[key] |= tg
-                # function references passed as arguments
-                for a in list(node.args) + [k.value for k in node.keywords]:
-                    if isinstance(a, ast.Name):
-                        for t in self.by_short.get(a.id, []):
-                            if "." not in t[1]:
-                                self.edges[key].add(t)
+            elif isinstance(node, ast.Name) and isinstance(node.ctx, ast.Load) and node.id in self.by_short:
+                # a package function used as a value (passed to a pool / partial, bound to a local and called later): it may be called from here
+                par = A.parent(node)
+                if isinstance(par, ast.Call) and par.func is node:
+                    continue
+                for t in self.by_short.get(node.id, []):
+                    if "." not in t[1]:
+                        self.edges[key].add(t)
 
     def _resolve_call(self, call, mn, cls):
         f = call.func
@@ -99,6 +101,19 @@ class CallGraph:
                 root = root.value if not isinstance(root, ast.Call) else root.func
             rootname = root.id if isinstance(root, ast.Name) else None
             base = dotted(f.value)
+            if isinstance(f.value, ast.Call) and isinstance(f.value.func, ast.Name) and f.value.func.id == "super":
+                # super().m(...): the method of a base class defined in the package, otherwise external
+                if cls and cls.split(".")[-1] in self.classes:
+                    cm, c = self.classes[cls.split(".")[-1]]
+                    for b in c.bases:
+                        bn = (dotted(b) or "").split(".")[-1]
+                        if bn in self.classes:
+                            bm, bc = self.classes[bn]
+                            if (bm, bc._qualname + "." + f.attr) in self.funcs:
+                                out.add((bm, bc._qualname + "." + f.attr))
+                if not out:
+                    self.external += 1
+                return out
             if base in ("self", "cls") and cls:
                 if (mn, cls + "." + f.attr) in self.funcs:
                     return {(mn, cls + "." + f.attr)}
